@@ -182,7 +182,7 @@ class C04Machine(Machine):
     def plan(self, tier):
         if tier == 'quick':
             return {'runs': 24 + 3000, 'budget_s': 100, 'batch': 12}
-        return {'runs': 24 + 2200 + 160000, 'budget_s': 1500, 'batch': 20}
+        return {'runs': 24 + 2200 + 2000000, 'budget_s': 1500, 'batch': 40}
 
     N_WALK1 = 24
 
